@@ -1843,14 +1843,14 @@ fn main() {
             for prog in fixed_programs() {
                 run_program(&prog, &tier, seed, &mut out, &mut emits);
             }
-            let n = if tier == "thorough" { 1500 } else { 300 } / if sub { 3 } else { 1 };
+            let n = if tier == "thorough" { 1500 } else { 240 } / if sub { 3 } else { 1 };
             for i in 0..n {
                 let mut prog = gen_program(seed, i);
                 // the third of the generated programs that the unhooked build runs too
-                prog.user_writer = i < (if tier == "thorough" { 1500 } else { 300 }) / 3;
+                prog.user_writer = i < (if tier == "thorough" { 1500 } else { 240 }) / 3;
                 run_program(&prog, &tier, seed, &mut out, &mut emits);
             }
-            let n = if tier == "thorough" { 1500 } else { 300 } / if sub { 3 } else { 1 };
+            let n = if tier == "thorough" { 1500 } else { 210 } / if sub { 3 } else { 1 };
             for i in 0..n {
                 let prog = gen_structured(seed, i);
                 run_program(&prog, &tier, seed, &mut out, &mut emits);
